@@ -2,8 +2,12 @@
 // forward / Reverse, quaternion / Euler option, identity or general X_PF / X_BM frames, random options
 // (Screw pitch, Ellipsoid radii, SphericalCoords offsets/signs/axis), random q and u.
 // usage: C05_probe <seed> <ncases>
-// prints per case:  CASE type rev euler frames nq nu npar par.. q.. u..
-//                   OUT X 12 | OUT V 6 | OUT H k 6 | OUT FITX 12 | OUT FITQ nq | OUT FITU nu | OUT FITV 6 | END
+// prints per case:  CASE type rev euler frames nq nu npar par.. q.. u.. q2.. u2..
+//                   OUT X 12 | OUT V 6 | OUT H k 6 | OUT FITX 12 | OUT FITQ nq | OUT FITU nu | OUT FITV 6
+//                   OUT PFR nq | OUT PFT nq | OUT PFW nu | OUT PFL nu | END
+// PFR / PFT: coordinates after the PARTIAL fits setQToFitRotation(R of X) / setQToFitTranslation(p of X) applied to a state
+// holding the second random coordinate set q2; PFW / PFL: speeds after setUToFitAngularVelocity(w of V) /
+// setUToFitLinearVelocity(v of V) applied to the case's q with the second random speeds u2.
 // X,V,H are the reported getMobilizerTransform / getMobilizerVelocity / getH_FMCol; FITX is the mobilizer transform
 // after setQToFitTransform(X) on a fresh state, FITU the speeds after setUToFitVelocity(V) (q as in the case).
 #include "mb_common.h"
@@ -72,10 +76,17 @@ int main(int argc, char** argv) {
         for (int i = 0; i < nu; ++i) s.updU()[i] = r.U(-1, 1);
         if (reg) { for (int i = 0; i < (int)reg->q.size() && i < nq; ++i) s.updQ()[i] = reg->q[i]; for (int i = 0; i < (int)reg->u.size() && i < nu; ++i) s.updU()[i] = reg->u[i]; }
         sys.realize(s, Stage::Velocity);
+        // second, unrelated coordinate / speed set: the starting point of the partial fits
+        Vector q2(nq), u2(nu);
+        for (int i = 0; i < nq; ++i) q2[i] = r.U(0.1, 1.2) * (r.I(0, 1) ? 1 : -1);
+        if (quat) { Vec4 e(r.U(-1, 1), r.U(-1, 1), r.U(-1, 1), r.U(-1, 1)); if (e.norm() < 0.2) e = Vec4(1, 0, 0, 0); e = e / e.norm(); for (int i = 0; i < 4; ++i) q2[i] = e[i]; }
+        for (int i = 0; i < nu; ++i) u2[i] = r.U(-1, 1);
         std::printf("CASE %d %d %d %d %d %d %d", type, (int)rev, (int)euler, frames, nq, nu, (int)par.size());
         for (Real p : par) std::printf(" %a", p);
         for (int i = 0; i < nq; ++i) std::printf(" %a", s.getQ()[i]);
         for (int i = 0; i < nu; ++i) std::printf(" %a", s.getU()[i]);
+        for (int i = 0; i < nq; ++i) std::printf(" %a", q2[i]);
+        for (int i = 0; i < nu; ++i) std::printf(" %a", u2[i]);
         std::printf("\n");
         const Transform X = mb.getMobilizerTransform(s); const SpatialVec V = mb.getMobilizerVelocity(s);
         pX("X", X);
@@ -92,6 +103,11 @@ int main(int argc, char** argv) {
             pvec("OUT FITU", s3.getU());
             sys.realize(s3, Stage::Velocity);
             std::printf("OUT FITV"); psv(mb.getMobilizerVelocity(s3)); std::printf("\n");
+            // partial fits from the second coordinate / speed set
+            State a = s2; a.updQ() = q2; mb.setQToFitRotation(a, X.R()); pvec("OUT PFR", a.getQ());
+            State b = s2; b.updQ() = q2; mb.setQToFitTranslation(b, X.p()); pvec("OUT PFT", b.getQ());
+            State c = s; c.updU() = u2; mb.setUToFitAngularVelocity(c, V[0]); pvec("OUT PFW", c.getU());
+            State d = s; d.updU() = u2; mb.setUToFitLinearVelocity(d, V[1]); pvec("OUT PFL", d.getU());
         }
         std::printf("END\n");
     }
